@@ -201,6 +201,33 @@ var ZeroDiv = &Palette{
 	},
 }
 
+// Interp: exactly the values of spec/Interp.tla (CellVal, ConstVal): small positive integers that every
+// numeric element type represents exactly.
+var Interp = &Palette{
+	Name: "interp",
+	Cell: func(d *DT, id int) interface{} {
+		v := int64((id*7)%11 + 1)
+		switch d.Class {
+		case CBool:
+			return v%2 == 1
+		case CString:
+			return fmt.Sprintf("%d", v)
+		}
+		return d.FromInt(v)
+	},
+	Const: func(d *DT, j int) interface{} {
+		v := int64(j%3 + 2)
+		switch d.Class {
+		case CBool:
+			return true
+		case CString:
+			return fmt.Sprintf("%d", v)
+		}
+		return d.FromInt(v)
+	},
+}
+
 var Palettes = map[string]*Palette{
+	"interp": Interp,
 	"ident": Ident, "signed": Signed, "edge": Edge, "nonfinite": NonFinite, "zerodiv": ZeroDiv,
 }
